@@ -14,8 +14,8 @@
 #[verifier::external_body]
 pub struct ExIoError(std::io::Error);
 use std::io::ErrorKind;
+// (transparent: the variants can be named and compared, e.g. `e.kind() == ErrorKind::Interrupted`)
 #[verifier::external_type_specification]
-#[verifier::external_body]
 pub struct ExErrorKind(std::io::ErrorKind);
 pub assume_specification[ std::io::Error::kind ](e: &std::io::Error) -> std::io::ErrorKind;
 
